@@ -303,18 +303,18 @@ type Conn struct {
 
 var _ network.Conn = (*Conn)(nil)
 
-func (c *Conn) Close() error                                 { c.n.SetConnected(c.remote, false); return nil }
-func (c *Conn) CloseWithError(network.ConnErrorCode) error   { return c.Close() }
-func (c *Conn) ID() string                                   { return c.id }
-func (c *Conn) LocalPeer() peer.ID                           { return c.n.h.id }
-func (c *Conn) RemotePeer() peer.ID                          { return c.remote }
-func (c *Conn) RemotePublicKey() ic.PubKey                   { return nil }
-func (c *Conn) ConnState() network.ConnectionState           { return network.ConnectionState{} }
-func (c *Conn) LocalMultiaddr() ma.Multiaddr                 { return nil }
-func (c *Conn) RemoteMultiaddr() ma.Multiaddr                { return c.raddr }
-func (c *Conn) Scope() network.ConnScope                     { return &network.NullScope{} }
-func (c *Conn) IsClosed() bool                               { return c.closed }
-func (c *Conn) As(any) bool                                  { return false }
+func (c *Conn) Close() error                                      { c.n.SetConnected(c.remote, false); return nil }
+func (c *Conn) CloseWithError(network.ConnErrorCode) error        { return c.Close() }
+func (c *Conn) ID() string                                        { return c.id }
+func (c *Conn) LocalPeer() peer.ID                                { return c.n.h.id }
+func (c *Conn) RemotePeer() peer.ID                               { return c.remote }
+func (c *Conn) RemotePublicKey() ic.PubKey                        { return nil }
+func (c *Conn) ConnState() network.ConnectionState                { return network.ConnectionState{} }
+func (c *Conn) LocalMultiaddr() ma.Multiaddr                      { return nil }
+func (c *Conn) RemoteMultiaddr() ma.Multiaddr                     { return c.raddr }
+func (c *Conn) Scope() network.ConnScope                          { return &network.NullScope{} }
+func (c *Conn) IsClosed() bool                                    { return c.closed }
+func (c *Conn) As(any) bool                                       { return false }
 func (c *Conn) NewStream(context.Context) (network.Stream, error) { return nil, io.ErrClosedPipe }
 func (c *Conn) Stat() network.ConnStats {
 	return network.ConnStats{Stats: network.Stats{Direction: c.dir, Opened: c.opened, Limited: c.limited}, NumStreams: len(c.GetStreams())}
